@@ -6,7 +6,7 @@ import ast
 from .srcmodel import unparse, walk, call_name, statements
 
 INPLACE = {'append', 'extend', 'insert', 'update', 'setdefault', 'add', 'pop', 'clear', 'remove'}
-WEAK_KEY_MARKERS = ('__code__', '__name__', '__qualname__', 'id(', 'len(', '.shape', 'type(', '__class__')
+WEAK_KEY_MARKERS = ('__code__', '__name__', '__qualname__', 'id(', 'len(', '.shape', 'type(', '__class__', '[0]', '[-1]', '.start', '.stop', '.step')
 
 
 def module_mutables(mod):
